@@ -94,7 +94,8 @@ let canon_basic (q : ioq) (rs : res list) : string =
   | QOpen _, _ -> open_s rs
   | (QReadDir _), [RInfos (l, None)] -> "ents:" ^ list_s (List.map ent_s l)
   | (QReadDir _ | QStat _ | QReadFile _ | QGlob _), [RErr e] ->
-    (match q with QGlob _ -> "m=-;r=BadPattern" | _ -> err_s e)
+    (* io_glob_res encodes ErrBadPattern as E KOther; anything else is the error of a refused Sub *)
+    (match q, e.ek with QGlob _, KOther -> "m=-;r=BadPattern" | _ -> err_s e)
   | QStat _, [RInfo fi] -> info_s fi
   | QReadFile _, [RData (d, None)] -> "data:" ^ dat_s d
   | QGlob _, [RNames (l, None)] -> Printf.sprintf "m=%s;r=-" (list_s (List.map hex_of_bytes l))
